@@ -43,7 +43,7 @@ def main():
         m = json.load(open(p))
         name = m['id']
         if name.startswith('R'): n_r += 1
-        elif name.startswith('S'): n_s += 1
+        elif name[0] in 'ST': n_s += 1
         else: n_c += 1
         if m.get('rejected'):
             rows.append('| %s | %s | %s | - | rejected: %s |' % (name, cell(m.get('summary')), cell(m.get('needs')), cell(m['rejected'], 120)))
@@ -51,7 +51,7 @@ def main():
         tc = m.get('target_check') or {}
         ev = (tc.get('reasons') or [''])[0] if m.get('detected_by_target') else json.dumps(m.get('other_checks', {}), ensure_ascii=False)
         by = ', '.join(m.get('detected_by') or []) or 'MISSED'
-        if name[0] in 'RS':
+        if name[0] in 'RST':
             by = '%s (written against %s)' % (by, m.get('property'))
         note = NOTES.get(name)
         rows.append('| %s | %s | %s | %s | %s%s |' % (name, cell(m.get('summary')), cell(m.get('needs')), by, cell(ev, 170), (' - ' + note) if note else ''))
